@@ -90,10 +90,17 @@ class FormatSpec(c01.ProgSpec):
         inds = [len(l) - len(l.lstrip()) for l in doclines if l.strip()]
         m = min(inds) if inds else 0
         doclines = [l[m:] for l in doclines]
-        for lineno, offset in ((1, False), (1, True), (98, True), (98, False)):
+        for lineno, offset, cfg_on in ((1, False, False), (1, True, False), (98, True, False), (98, False, False), (98, False, True),
+                                       (98, True, True)):
             t2 = DocTest(text, lineno=lineno)
+            if cfg_on:
+                # the configuration asks for the opposite of what the call asks for: explicit arguments win
+                t2.config['offset_linenos'] = not offset
+                t2.config['colored'] = True
             fl = t2.format_src(linenos=True, colored=False, want=True, offset_linenos=offset, prefix=True)
             n += 1
+            if '\x1b[' in fl:
+                atoms.append({'sig': 'format:coloured-although-colored-false', 'msg': repr(fl[:120])})
             start = lineno if offset else 1
             shown = []
             for line in fl.split('\n'):
